@@ -39,6 +39,9 @@ EXPLANATION = ('pool.liquidity, tick net/gross/initialized and position.liquidit
                'errors exactly on the documented overflow/underflow checks; a crossing maps the sum covering the origin segment to the sum covering the destination segment')
 
 
+TECHNIQUE = TECHNIQUE + '; complemented by Engine M (rustc MIR -> integer SMT, z3 5.1): Floyd verification of the swap loop (crossing exactness X1-X6), and by the shared Kani harnesses for the tick-sequence roll-over (c10.rs) and the Pinocchio dynamic-array history (c13.rs)'
+
+
 def run(ctx):
     # Engine M complement (props/mextra.py): the swap loop's crossing/fee/reward wiring (Floyd verification shared with C03) and, where relevant, the payout handlers and leaf kernels
     from props import mextra
